@@ -99,8 +99,16 @@ impl Scenario for RegistryScn {
     fn setup(&self, _root: usize, w: &mut World) -> (RegH, RegG) {
         let natives = ["uaa", "ubb", "ucc"];
         let many = self.group == "vaults-many";
+        // "pools-ibc": a plain denom and two ibc voucher denoms whose 64-digit hashes differ only in letter case
+        // (bank denoms are case sensitive, so they are different assets)
+        let ibc = self.group == "pools-ibc";
+        const IBC_LOWER: &str = "ibc/27394fb092d2eccd56123c74f36e4c1f926001ceada9ca97ea622b25f41e5eb2";
+        const IBC_UPPER: &str = "ibc/27394FB092D2ECCD56123C74F36E4C1F926001CEADA9CA97EA622B25F41E5EB2";
         let n_native = if many { 0 } else { (self.n_assets + 1) / 2 };
-        let nd: Vec<(&str, u8)> = natives.iter().take(n_native).enumerate().map(|(i, d)| (*d, 6 + i as u8)).collect();
+        let mut nd: Vec<(&str, u8)> = natives.iter().take(n_native).enumerate().map(|(i, d)| (*d, 6 + i as u8)).collect();
+        if ibc {
+            nd = vec![("uaa", 6), (IBC_LOWER, 6), (IBC_UPPER, 8)];
+        }
         let hub = deploy_pool_hub(w, &nd);
         let mut assets: Vec<AssetInfo> = vec![];
         let mut ci = 0;
@@ -108,6 +116,8 @@ impl Scenario for RegistryScn {
             if many {
                 // more registered children than one default page (10) of the factories' listings holds
                 assets.push(native(&format!("uvault{}", (b'a' + i as u8) as char)));
+            } else if ibc {
+                assets.push(native(["uaa", IBC_LOWER, IBC_UPPER][i]));
             } else if i % 2 == 0 {
                 assets.push(native(natives[i / 2]));
             } else {
@@ -182,6 +192,12 @@ impl Scenario for RegistryScn {
         let mut v = vec![];
         let n = self.n_assets;
         match self.group.as_str() {
+            "pools-ibc" => {
+                for (a, bb) in [(0usize, 1usize), (0, 2), (1, 0), (2, 0), (1, 2)] {
+                    v.push(RegAct::CreatePair { a, b: bb });
+                    v.push(RegAct::RemovePair { a, b: bb });
+                }
+            }
             "pools" => {
                 for a in 0..n {
                     for bb in 0..n {
@@ -398,7 +414,7 @@ impl Scenario for RegistryScn {
     fn invariants(&self, w: &mut World, h: &RegH, g: &RegG, cx: &mut Cx) {
         let ai = |i: usize| h.assets[i].clone();
         let n = self.n_assets;
-        if self.group == "pools" || self.group == "router" || self.group == "trios" {
+        if self.group.starts_with("pools") || self.group == "router" || self.group == "trios" {
             // point queries, both orders, every unordered set
             for a in 0..n {
                 for bb in 0..n {
